@@ -283,7 +283,9 @@ pub(crate) fn add(ctx: &mut TulispContext) {
     intern_set_func!(ctx, setq);
 
     fn set(ctx: &mut TulispContext, args: &TulispObject) -> Result<TulispObject, Error> {
-        let value = args.cdr_and_then(|args| {
+        // Check the shape of the call, then evaluate the symbol form before
+        // the value form: arguments are evaluated left to right.
+        args.cdr_and_then(|args| {
             if args.null() {
                 return Err(Error::new(
                     ErrorKind::TypeMismatch,
@@ -297,10 +299,12 @@ pub(crate) fn add(ctx: &mut TulispContext) {
                         "setq requires exactly 2 arguments".to_string(),
                     ));
                 }
-                args.car_and_then(|arg| ctx.eval(arg))
+                Ok(())
             })
         })?;
-        args.car_and_then(|name_sym| ctx.eval_and_then(name_sym, |name| name.set(value.clone())))?;
+        let name = args.car_and_then(|name_sym| ctx.eval(name_sym))?;
+        let value = args.cadr_and_then(|arg| ctx.eval(arg))?;
+        name.set(value.clone())?;
         Ok(value)
     }
     intern_set_func!(ctx, set);
